@@ -30,7 +30,7 @@ def fill (n : Nat) : Nat → Bytes → List Bytes → Option Bytes × Bytes × L
       if r.isEmpty then (none, b, rs') else fill n fuel (b ++ r) rs'
     else (some b, b, rs)
 
-/-- `_read_hdr` (the `while True` loop, with fuel) -/
+/-- `_read_hdr` (the `while True` loop, with fuel; only the "candidate not complete" branch loops) -/
 def readHdr (c : Codec) : Nat → Bytes → List Bytes → HdrRes
   | 0, buf, rs => ⟨none, buf, rs⟩
   | fuel + 1, buf, rs =>
@@ -44,7 +44,7 @@ def readHdr (c : Codec) : Nat → Bytes → List Bytes → HdrRes
         if b'.length < c.hdrLen then readHdr c fuel b' rs'  -- candidate not complete: keep it, read on
         else
           match c.hdrDecode b' with
-          | .error _ => readHdr c fuel (b'.drop 1) rs'      -- bad header: drop one byte
+          | .error _ => ⟨none, b'.drop 1, rs'⟩               -- bad header: drop one byte, back to the thread loop (F20)
           | .ok h => ⟨some (h, b'), buf, rs'⟩
 
 /-- rest-of-frame loop of `_read_frame`: read until `flen` bytes or an empty read -/
